@@ -105,6 +105,16 @@ def sh(cmd, cwd=None, timeout=3600, env=None):
 
 def build_replay():
     d = os.path.join(VERIF, 'replay')
+    if os.path.realpath(REPO) != '/repo':
+        # development aid: checks pointed at a scratch worktree (VERIF_REPO) replay against that tree
+        import shutil
+        alt = os.path.join(BUILD, 'replay_alt')
+        os.makedirs(os.path.join(alt, 'src'), exist_ok=True)
+        open(os.path.join(alt, 'Cargo.toml'), 'w').write(open(os.path.join(d, 'Cargo.toml')).read().replace('"/repo"', '"%s"' % os.path.realpath(REPO)))
+        shutil.copy(os.path.join(d, 'Cargo.lock'), alt)
+        for f in os.listdir(os.path.join(d, 'src')):
+            shutil.copy(os.path.join(d, 'src', f), os.path.join(alt, 'src', f))
+        d = alt
     p = sh(['cargo', 'build', '--release', '--offline', '--quiet'], cwd=d, timeout=1200)
     if p.returncode != 0:
         raise Undecided('replay crate does not build against /repo: ' + p.stderr[-1500:])
